@@ -756,3 +756,608 @@ Proof.
   rewrite (IH W'), (not_module_filter _ (F NM)).
   unfold is_module_obj at 1. rewrite C, Km. reflexivity.
 Qed.
+
+(* ================================================================= USE resolution *)
+
+Lemma xlate_shape idf cfg b pk purl kept e :
+  exists attrs, xlate idf cfg b pk purl kept e
+                = XO (cls_of (e_kind e)) (JStr (e_name e))
+                     (JStr (rebase b (url_rel (own_url pk purl (e_kind e) (idf (e_id e)))))) attrs.
+Proof. destruct e. eexists. reflexivity. Qed.
+
+Lemma find_first_local_hit n c locals rest : forall i,
+  lower_in n locals = true ->
+  exists j, find_first n (number_from c i locals ++ rest) = Ok (Some (HLocal c j))
+            /\ i <= j < i + length locals
+            /\ (exists x, nth_error locals (j - i) = Some x /\ lower n = lower x).
+Proof.
+  induction locals as [|x l IH]; intros i H; simpl in *; [discriminate|].
+  destruct (str_eqb (lower n) (lower x)) eqn:E.
+  - exists i. split; [reflexivity|]. split; [lia|]. exists x. rewrite Nat.sub_diag. split; [reflexivity|].
+    now apply str_eqb_eq.
+  - simpl in H. destruct (IH (S i) H) as (j & F & R & x' & N & L).
+    exists j. split; [exact F|]. split; [lia|]. exists x'. split; [|exact L].
+    replace (j - i) with (S (j - S i)) by lia. exact N.
+Qed.
+
+Lemma find_first_local_miss n c locals rest : forall i,
+  lower_in n locals = false ->
+  find_first n (number_from c i locals ++ rest) = find_first n rest.
+Proof.
+  induction locals as [|x l IH]; intros i H; simpl in *; [reflexivity|].
+  apply orb_false_iff in H as [H1 H2]. rewrite H1. now apply IH.
+Qed.
+
+Lemma find_first_xlate idf cfg b mods m :
+  NoDup (map (fun e => lower (e_name e)) mods) -> In m mods ->
+  find_first (e_name m) (map IExt (map (xlate idf cfg b None None true) mods))
+  = Ok (Some (HExt (xlate idf cfg b None None true m))).
+Proof.
+  induction mods as [|x r IH]; intros ND Hin; [destruct Hin|].
+  inversion ND as [|? ? Hn ND']; subst. simpl.
+  destruct (xlate_shape idf cfg b None None true x) as (attrs & E).
+  destruct Hin as [->|Hin].
+  - rewrite E. cbn [find_first]. rewrite str_eqb_refl. reflexivity.
+  - rewrite E. cbn [find_first].
+    destruct (str_eqb (lower (e_name m)) (lower (e_name x))) eqn:Q.
+    + exfalso. apply Hn. apply str_eqb_eq in Q. rewrite <- Q.
+      apply (in_map (fun e => lower (e_name e)) r m Hin).
+    + now apply IH.
+Qed.
+
+(* A as Fortran allows it: units of A's module list are modules, contain no modules, have distinct
+   names, and the accessible names of each class in a module are distinct *)
+Record wf_A (A : aproject) : Prop := {
+  wf_kinds : Forall (fun m => e_kind m = KModule /\ no_module_below m = true) (a_modules A);
+  wf_modnames : NoDup (map (fun m => lower (e_name m)) (a_modules A));
+  wf_names : Forall names_distinct (a_modules A)
+}.
+
+Theorem use_module_roundtrip A b locals m :
+  wf_A A -> In m (a_modules A) -> lower_in (e_name m) locals = false ->
+  find_used_module locals (xmods A b) (e_name m)
+  = Ok (Some (HExt (xlate (ident_of A) (a_cfg A) b None None true m))).
+Proof.
+  intros W Hin Hl. unfold find_used_module.
+  rewrite find_first_local_miss by assumption.
+  rewrite ext_modules_are_modules by apply W.
+  apply find_first_xlate; [apply W|assumption].
+Qed.
+
+(* B's own module wins *)
+Theorem use_local_first locals tops n :
+  lower_in n locals = true ->
+  exists j x, find_used_module locals tops n = Ok (Some (HLocal CModules j))
+              /\ nth_error locals j = Some x /\ lower n = lower x.
+Proof.
+  intros H. unfold find_used_module.
+  destruct (find_first_local_hit n CModules locals (map IExt (ext_list tops PLModules)) 0 H)
+    as (j & F & _ & x & N & L).
+  exists j, x. rewrite Nat.sub_0_r in N. auto.
+Qed.
+
+(* ================================================================= the pages A writes *)
+
+Definition no_hash (x : str) : bool := forallb (fun c => negb (ch_eqb c "#")) x.
+
+Lemma strip_frag_id x : no_hash x = true -> strip_frag x = x.
+Proof.
+  induction x as [|c x IH]; simpl; [reflexivity|]. intros H. apply andb_true_iff in H as [Hc Hx].
+  apply negb_true_iff in Hc. rewrite Hc. now rewrite IH.
+Qed.
+Lemma no_hash_app a b : no_hash (a ++ b) = no_hash a && no_hash b.
+Proof. unfold no_hash. apply forallb_app. Qed.
+Lemma strip_frag_cut a b : no_hash a = true -> strip_frag (a ++ "#"%char :: b) = a.
+Proof.
+  induction a as [|c a IH]; simpl; [reflexivity|]. intros H. apply andb_true_iff in H as [Hc Ha].
+  apply negb_true_iff in Hc. rewrite Hc. now rewrite IH.
+Qed.
+
+Definition pages_kids (idf : nat -> str) (cfg : acfg) (kept : bool) (k : kind) : list ent -> list str :=
+  fix go (l : list ent) : list str :=
+    match l with
+    | [] => []
+    | c :: r => if listed cfg kept k c then pages_of idf cfg (Some k) kept c ++ go r else go r
+    end.
+
+Lemma pages_of_eq idf cfg pk kept id k name p kids :
+  pages_of idf cfg pk kept (Ent id k name p kids)
+  = match dir_of pk k with Some d => [d ++ s "/" ++ idf id ++ s ".html"] | None => [] end
+    ++ pages_kids idf cfg kept k kids.
+Proof. reflexivity. Qed.
+
+Lemma pages_kids_in idf cfg kept k kids c x :
+  In c kids -> listed cfg kept k c = true -> In x (pages_of idf cfg (Some k) kept c) ->
+  In x (pages_kids idf cfg kept k kids).
+Proof.
+  induction kids as [|y r IH]; simpl; [tauto|].
+  intros [->|Hc] L Hx.
+  - rewrite L. apply in_or_app. now left.
+  - destruct (listed cfg kept k y); [apply in_or_app; right|]; auto.
+Qed.
+
+Lemma page_head idf cfg pk kept e d :
+  dir_of pk (e_kind e) = Some d ->
+  In (d ++ s "/" ++ idf (e_id e) ++ s ".html") (pages_of idf cfg pk kept e).
+Proof. destruct e as [id k name p kids]. simpl e_kind. simpl e_id. intros E. rewrite pages_of_eq, E. now left. Qed.
+
+Lemma page_dir_nohash d : page_dir d -> no_hash d = true.
+Proof. intros [E|[E|[E|E]]]; subst d; reflexivity. Qed.
+
+(* an entity of a module that A displays: the page B is sent to is one A wrote *)
+Theorem target_written A m e u :
+  In m (a_modules A) -> e_kind m = KModule -> In e (e_kids m) ->
+  shown (c_display (a_cfg A)) e = true ->
+  no_hash (ident_of A (e_id m)) = true -> no_hash (ident_of A (e_id e)) = true ->
+  kid_url (ident_of A) m e = Some u ->
+  In (page_of u) (pages_written A).
+Proof.
+  intros Hm Km He Sh Nm Ne Hu.
+  unfold pages_written. apply in_flat_map. exists m. split; [assumption|].
+  destruct m as [idm km namem pm kidsm]. simpl in Km, He, Nm. subst km.
+  unfold kid_url in Hu. simpl e_kind in Hu. simpl e_id in Hu.
+  change (own_url None None KModule (ident_of A idm))
+    with (Some (s "module" ++ s "/" ++ ident_of A idm ++ s ".html")) in Hu.
+  rewrite pages_of_eq. unfold own_url in Hu.
+  destruct (dir_of (Some KModule) (e_kind e)) as [d|] eqn:Ed.
+  - injection Hu as <-. apply in_or_app. right.
+    apply (pages_kids_in _ _ _ _ _ e); [assumption| |].
+    + unfold listed. simpl. exact Sh.
+    + unfold page_of. rewrite strip_frag_id.
+      * now apply page_head.
+      * pose proof (page_dir_nohash _ (dir_of_page _ _ _ Ed)) as Nd.
+        rewrite no_hash_app, Nd. cbn [no_hash forallb andb negb ch_eqb Ascii.eqb Bool.eqb].
+        change (forallb (fun c => negb (ch_eqb c "#")) ?x) with (no_hash x).
+        rewrite no_hash_app, Ne. reflexivity.
+  - destruct (anchored (e_kind e)); [|discriminate]. injection Hu as <-.
+    apply in_or_app. left. simpl dir_of. cbn iota. left.
+    set (P := s "module" ++ s "/" ++ ident_of A idm ++ s ".html").
+    assert (NP : no_hash P = true).
+    { unfold P. change (s "module" ++ s "/" ++ ident_of A idm ++ s ".html")
+        with ((s "module" ++ s "/") ++ ident_of A idm ++ s ".html").
+      rewrite !no_hash_app, Nm. reflexivity. }
+    change (P = strip_frag (strip_frag P ++ "#"%char
+                              :: (obj_str (e_kind e) ++ s "-" ++ quote (ident_of A (e_id e))))).
+    rewrite (strip_frag_id _ NP). symmetry. now apply strip_frag_cut.
+Qed.
+
+(* ================================================================= each page has one owner *)
+
+Definition req_of (pk : option kind) (e : ent) : req :=
+  {| r_id := e_id e; r_dir := match dir_of pk (e_kind e) with Some d => d | None => s "None" end;
+     r_name := e_name e |}.
+
+Definition reqs_kids (k : kind) : list ent -> list req :=
+  fix go (l : list ent) : list req :=
+    match l with [] => [] | c :: r => tree_reqs (Some k) c ++ go r end.
+
+Lemma tree_reqs_eq pk id k name p kids :
+  tree_reqs pk (Ent id k name p kids) = req_of pk (Ent id k name p kids) :: reqs_kids k kids.
+Proof. reflexivity. Qed.
+
+Lemma tree_reqs_head pk e : exists rest, tree_reqs pk e = req_of pk e :: rest.
+Proof. destruct e. eexists. apply tree_reqs_eq. Qed.
+
+Lemma kid_req_in pk m e : In e (e_kids m) -> In (req_of (Some (e_kind m)) e) (tree_reqs pk m).
+Proof.
+  destruct m as [id k name p kids]. simpl e_kids. simpl e_kind. intros H.
+  rewrite tree_reqs_eq. right.
+  induction kids as [|c r IH]; [destruct H|]. simpl.
+  apply in_or_app. destruct H as [->|H].
+  - left. destruct (tree_reqs_head (Some k) e) as (rest & ->). now left.
+  - right. now apply IH.
+Qed.
+
+Lemma kid_req_all A m e :
+  In m (a_modules A) -> In e (e_kids m) -> In (req_of (Some (e_kind m)) e) (all_reqs A).
+Proof.
+  intros Hm He. unfold all_reqs. apply in_or_app. right. apply in_flat_map.
+  exists m. split; [assumption|]. now apply kid_req_in.
+Qed.
+
+Lemma run_idents_length rs : length (run_idents rs) = length rs.
+Proof.
+  unfold run_idents. destruct (run_spec rs init [] inv_init) as (_ & _ & _ & L & _).
+  - intros it [].
+  - exact L.
+Qed.
+
+Lemma lookup_ident_nth id : forall rs ns,
+  length rs = length ns -> In id (map r_id rs) ->
+  exists i r, nth_error rs i = Some r /\ r_id r = id /\
+              nth_error ns i = Some (lookup_ident id (combine (map r_id rs) ns)).
+Proof.
+  induction rs as [|r rs IH]; intros [|n ns] L H; simpl in *; try tauto; try discriminate.
+  destruct (Nat.eqb (r_id r) id) eqn:E.
+  - exists 0, r. apply Nat.eqb_eq in E. auto.
+  - destruct H as [H|H]; [apply Nat.eqb_neq in E; contradiction|].
+    destruct (IH ns ltac:(lia) H) as (i & r' & A1 & A2 & A3).
+    exists (S i), r'. auto.
+Qed.
+
+(* the ident of an entity that made a request, and the position of that request *)
+Lemma ident_of_request A r :
+  consistent (all_reqs A) -> In r (all_reqs A) ->
+  exists i, nth_error (all_reqs A) i = Some r /\
+            nth_error (run_idents (all_reqs A)) i = Some (ident_of A (r_id r)).
+Proof.
+  intros C Hr. unfold ident_of, ident_table. cbv zeta.
+  destruct (lookup_ident_nth (r_id r) (all_reqs A) (run_idents (all_reqs A))) as (i & r' & N & I & O).
+  - symmetry. apply run_idents_length.
+  - now apply in_map.
+  - assert (r' = r) by (apply C; auto; eapply nth_error_In; eauto). subst r'.
+    exists i. auto.
+Qed.
+
+Lemma page_dir_noslash d : page_dir d -> ~ In "/"%char d.
+Proof. intros [E|[E|[E|E]]]; subst d; simpl; intuition discriminate. Qed.
+
+(* two different page-owning entities of A's modules never share a page, whatever their names *)
+Theorem target_unique A m1 e1 m2 e2 d1 d2 :
+  consistent (all_reqs A) ->
+  Forall (fun r => no_tilde (final_name (r_name r))) (all_reqs A) ->
+  In m1 (a_modules A) -> In m2 (a_modules A) -> e_kind m1 = KModule -> e_kind m2 = KModule ->
+  In e1 (e_kids m1) -> In e2 (e_kids m2) ->
+  dir_of (Some KModule) (e_kind e1) = Some d1 -> dir_of (Some KModule) (e_kind e2) = Some d2 ->
+  e_id e1 <> e_id e2 ->
+  kid_url (ident_of A) m1 e1 <> kid_url (ident_of A) m2 e2.
+Proof.
+  intros C NT M1 M2 K1 K2 E1 E2 D1 D2 Hid.
+  unfold kid_url. rewrite K1, K2. unfold own_url at 1 3. rewrite D1, D2.
+  intros [= E].
+  pose proof (page_dir_noslash _ (dir_of_page _ _ _ D1)) as S1.
+  pose proof (page_dir_noslash _ (dir_of_page _ _ _ D2)) as S2.
+  change (s "/" ++ ?x) with ("/"%char :: x) in E.
+  apply split_at_first_unique in E as [Ed Ei]; auto. apply app_inv_tail in Ei.
+  pose proof (kid_req_all A m1 e1 M1 E1) as R1. pose proof (kid_req_all A m2 e2 M2 E2) as R2.
+  rewrite K1 in R1. rewrite K2 in R2.
+  destruct (ident_of_request A _ C R1) as (i & N1 & O1).
+  destruct (ident_of_request A _ C R2) as (j & N2 & O2).
+  apply (idents_distinct (all_reqs A) i j _ _ _ _ C NT N1 N2 O1 O2).
+  - exact Hid.
+  - unfold req_of. simpl. rewrite D1, D2. exact Ed.
+  - exact Ei.
+Qed.
+
+(* ================================================================= the exported description is exact *)
+
+Lemma str_in_In x l : str_in x l = true <-> In x l.
+Proof.
+  induction l as [|y l IH]; simpl; [split; [discriminate|tauto]|].
+  rewrite orb_true_iff, str_eqb_eq, IH. split; intros [H|H]; auto.
+Qed.
+
+Lemma same_set_incl a b : incl a b -> incl b a -> same_set a b = true.
+Proof.
+  intros H1 H2. unfold same_set. apply andb_true_iff. split; apply forallb_forall; intros x Hx;
+    apply str_in_In; auto.
+Qed.
+
+Lemma all2_map {X Y} (f : X -> Y -> bool) (g : X -> Y) l :
+  all2 f l (map g l) = forallb (fun x => f x (g x)) l.
+Proof. induction l as [|x l IH]; simpl; [reflexivity|]. now rewrite IH. Qed.
+
+Lemma jname_export idf cfg pk purl kept e : jname (export_ent idf cfg pk purl kept e) = e_name e.
+Proof. destruct e. reflexivity. Qed.
+
+Lemma shown_default d c : display_default d = true -> shown d c = accessible c.
+Proof.
+  unfold display_default, shown, accessible. intros H.
+  apply andb_true_iff in H as [H H3]. apply andb_true_iff in H as [H1 H2]. apply negb_true_iff in H3.
+  destruct (e_perm c); assumption.
+Qed.
+
+Lemma class_members_filter m w c :
+  In c (class_members m w)
+  <-> In c (filter (fun e => accessible e && opt_eqb str_eqb (pub_class (e_kind e)) (Some w)) (e_kids m)).
+Proof.
+  unfold class_members. rewrite in_flat_map, filter_In. split.
+  - intros (k' & Hk & H). destruct (opt_eqb str_eqb (pub_class k') (Some w)) eqn:E; [|destruct H].
+    apply filter_In in H as [Hc S]. unfold dict_sel in S. apply andb_true_iff in S as [S1 S2].
+    split; [assumption|]. rewrite S2. simpl.
+    assert (e_kind c = k') by (destruct (e_kind c), k'; simpl in S1; congruence). now subst k'.
+  - intros [Hc S]. apply andb_true_iff in S as [S1 S2]. exists (e_kind c). split.
+    + destruct (pub_class (e_kind c)) as [w'|] eqn:P; [|discriminate].
+      now apply (pub_class_in _ w').
+    + rewrite S2. apply filter_In. split; [assumption|]. unfold dict_sel. now rewrite kind_eqb_refl, S1.
+Qed.
+
+Lemma module_exact_export idf cfg id name p kids :
+  display_default (c_display cfg) = true ->
+  module_exact (Ent id KModule name p kids)
+               (export_ent idf cfg None None true (Ent id KModule name p kids)) = true.
+Proof.
+  intros DD. rewrite export_ent_eq. cbv zeta.
+  set (url := own_url None None KModule (idf id)).
+  match goal with
+  | |- context [node_entries KModule name url p ?dv ?lv] => set (DV := dv); set (LV := lv)
+  end.
+  unfold module_exact. apply andb_true_iff. split; [apply andb_true_iff; split|].
+  - change (jname (JDict (node_entries KModule name url p DV LV))) with name. apply str_eqb_refl.
+  - apply forallb_forall. intros c Hc.
+    assert (G : jkeys (jget c (JDict (node_entries KModule name url p DV LV))) = map fst (DV c)).
+    { unfold PUB_CLASSES in Hc. simpl in Hc. destruct Hc as [<-|[<-|[<-|[<-|[]]]]]; reflexivity. }
+    rewrite G. unfold DV. rewrite dict_as_map, map_map. simpl.
+    unfold spec_pub.
+    apply same_set_incl; intros x Hx; apply in_map_iff in Hx as (e & <- & He); apply in_map_iff;
+      exists e; (split; [reflexivity|]);
+      apply (class_members_filter (Ent id KModule name p kids) c e); exact He.
+  - apply forallb_forall. intros l Hl.
+    assert (G : jlist (jget l (JDict (node_entries KModule name url p DV LV))) = LV l).
+    { unfold LIST_CLASSES in Hl. simpl in Hl. destruct Hl as [<-|[<-|[<-|[<-|[<-|[<-|[]]]]]]]; reflexivity. }
+    rewrite G. unfold LV. rewrite sel_map_filter, map_map.
+    rewrite (map_ext _ (fun e => lower (e_name e))) by (intros e; now rewrite jname_export).
+    unfold spec_list. simpl e_kids.
+    rewrite (filter_ext (list_sel cfg true KModule l) (fun e => accessible e && str_eqb (slot_of (e_kind e)) l)).
+    + apply same_set_incl; apply incl_refl.
+    + intros e. unfold list_sel, listed. simpl. rewrite (shown_default _ e DD). apply andb_comm.
+Qed.
+
+(* with the default display the description names exactly A's modules and, per module, exactly
+   its PUBLIC / PROTECTED entities *)
+Theorem export_exact_partial A v :
+  Forall (fun m => e_kind m = KModule) (a_modules A) ->
+  display_default (c_display (a_cfg A)) = true ->
+  exact_on (a_modules A) (export A v) = true.
+Proof.
+  intros K DD. unfold exact_on, export.
+  change (jlist (jget (s "modules") (JDict [(METADATA_NAME, JDict [(s "version", JStr v)]);
+            (s "modules", JList (map (export_ent (ident_of A) (a_cfg A) None None true) (a_modules A)))])))
+    with (map (export_ent (ident_of A) (a_cfg A) None None true) (a_modules A)).
+  rewrite all2_map. apply forallb_forall. intros m Hm.
+  rewrite Forall_forall in K. specialize (K m Hm).
+  destruct m as [id k name p kids]. simpl in K. subst k. now apply module_exact_export.
+Qed.
+
+(* ================================================================= [[name]]: B's own names *)
+
+Definition is_ext_coll (c : coll) : bool :=
+  match c with CExtModules | CExtTypes | CExtProcedures | CExtInterfaces => true | _ => false end.
+
+Lemma find_first_ext_none tops n l :
+  ext_named tops n = false -> incl l (flat_map objs_of tops) ->
+  find_first n (map IExt l) = Ok None.
+Proof.
+  unfold ext_named. intros H I.
+  induction l as [|o l IH]; [reflexivity|].
+  assert (Ho : In o (flat_map objs_of tops)) by (apply I; now left).
+  assert (Il : incl l (flat_map objs_of tops)) by (intros x Hx; apply I; now right).
+  assert (Q : match x_name o with JStr x => str_eqb (lower n) (lower x) | _ => true end = false).
+  { destruct (match x_name o with JStr x => str_eqb (lower n) (lower x) | _ => true end) eqn:E; [|reflexivity].
+    rewrite <- H. symmetry. apply existsb_exists. exists o. auto. }
+  simpl. destruct o as [c nm u a| | | |]; simpl in Q; try discriminate.
+  destruct nm; try discriminate. rewrite Q. now apply IH.
+Qed.
+
+Lemma ext_list_incl tops pl : incl (ext_list tops pl) (flat_map objs_of tops).
+Proof. unfold ext_list. intros x H. now apply filter_In in H as [H _]. Qed.
+
+Lemma coll_items_ext B tops c n :
+  is_ext_coll c = true -> ext_named tops n = false -> find_first n (coll_items B tops c) = Ok None.
+Proof.
+  intros E H. destruct c; try discriminate; simpl;
+    (apply (find_first_ext_none tops); [assumption|apply ext_list_incl]).
+Qed.
+
+Lemma coll_items_local B tops c :
+  is_ext_coll c = false -> coll_items B tops c = number_from c 0 (local_names B c).
+Proof. destruct c; simpl; intros E; try discriminate; reflexivity. Qed.
+
+Lemma find_first_number_hit n c names :
+  lower_in n names = true -> exists j, find_first n (number_from c 0 names) = Ok (Some (HLocal c j)).
+Proof.
+  intros H. destruct (find_first_local_hit n c names [] 0 H) as (j & F & _).
+  rewrite app_nil_r in F. eauto.
+Qed.
+Lemma find_first_number_miss n c names :
+  lower_in n names = false -> find_first n (number_from c 0 names) = Ok None.
+Proof.
+  intros H. pose proof (find_first_local_miss n c names [] 0 H) as F.
+  rewrite app_nil_r in F. exact F.
+Qed.
+
+Lemma find_colls_local B tops n cs :
+  ext_named tops n = false ->
+  (exists c, In c cs /\ is_ext_coll c = false /\ lower_in n (local_names B c) = true) ->
+  exists c j, find_colls B tops n cs = Ok (Some (HLocal c j)).
+Proof.
+  intros H. induction cs as [|c cs IH]; intros (w & Hw & Lw & Nw); [destruct Hw|].
+  simpl. destruct (is_ext_coll c) eqn:E.
+  - rewrite coll_items_ext by assumption. simpl. apply IH.
+    destruct Hw as [->|Hw]; [congruence|]. exists w. auto.
+  - rewrite coll_items_local by assumption.
+    destruct (lower_in n (local_names B c)) eqn:L.
+    + destruct (find_first_number_hit n c _ L) as (j & ->). simpl. eauto.
+    + rewrite find_first_number_miss by assumption. simpl. apply IH.
+      destruct Hw as [->|Hw]; [congruence|]. exists w. auto.
+Qed.
+
+(* a name only B defines resolves to B's entity *)
+Theorem find_local_when_no_ext B tops n child :
+  ext_named tops n = false -> defined_locally B n = true ->
+  exists h, project_find B tops n None child = Ok (Some h) /\ is_local h = true.
+Proof.
+  intros H D. unfold defined_locally in D. apply existsb_exists in D as (w & Hw & Nw).
+  destruct (find_colls_local B tops n (map snd LINK_TYPES) H) as (c & j & F).
+  { exists w. split; [|split; [|exact Nw]].
+    - unfold ALL_LOCAL in Hw. simpl in Hw.
+      repeat (destruct Hw as [<-|Hw]; [simpl; tauto|]). destruct Hw.
+    - unfold ALL_LOCAL in Hw. simpl in Hw.
+      repeat (destruct Hw as [<-|Hw]; [reflexivity|]). destruct Hw. }
+  unfold project_find. rewrite F. simpl.
+  destruct child as [[cn ce]|]; eexists; split; reflexivity.
+Qed.
+
+(* B's own module or submodule always wins (they are searched before anything imported) *)
+Theorem find_local_module_first B tops n child :
+  lower_in n (local_names B CModules) = true \/ lower_in n (local_names B CSubmodules) = true ->
+  exists h, project_find B tops n None child = Ok (Some h) /\ is_local h = true.
+Proof.
+  intros H. unfold project_find.
+  assert (F : exists c j, find_colls B tops n (map snd LINK_TYPES) = Ok (Some (HLocal c j))).
+  { change (map snd LINK_TYPES) with (CModules :: CSubmodules :: skipn 2 (map snd LINK_TYPES)).
+    cbn [find_colls coll_items].
+    destruct (lower_in n (local_names B CModules)) eqn:L1.
+    - destruct (find_first_number_hit n CModules _ L1) as (j & ->). simpl. eauto.
+    - rewrite find_first_number_miss by assumption. cbn [bind].
+      destruct H as [H|H]; [discriminate|].
+      destruct (find_first_number_hit n CSubmodules _ H) as (j & ->). simpl. eauto. }
+  destruct F as (c & j & ->). simpl.
+  destruct child as [[cn ce]|]; eexists; split; reflexivity.
+Qed.
+
+(* ================================================================= load errors *)
+
+(* the states of the source that FORD contains, or that carry what A exported *)
+Inductive benign : source -> Prop :=
+| BnLocalBad d : benign (SLocal d LBadJson)
+| BnRemoteBad u : benign (SRemote u RBadJson)
+| BnUrlError u : benign (SRemote u RUrlError)
+| BnLocalOk d A v : benign (SLocal d (LJson (export A v)))
+| BnRemoteOk u A v : benign (SRemote u (RJson (export A v))).
+
+Theorem load_contained_partial src : benign src -> survives (load src) = true.
+Proof.
+  intros []; try reflexivity.
+  - now rewrite load_export_local.
+  - now rewrite load_export_remote.
+Qed.
+
+Theorem load_failed_only_links src :
+  benign src -> has_description src = false -> only_links_lost (load src) = true.
+Proof. intros []; simpl; intros H; try discriminate; reflexivity. Qed.
+
+(* ================================================================= the round trip *)
+
+Lemma kid_url_some idf m e w :
+  e_kind m = KModule -> pub_class (e_kind e) = Some w -> exists u, kid_url idf m e = Some u.
+Proof.
+  intros Km P. unfold kid_url. rewrite Km.
+  change (own_url None None KModule (idf (e_id m)))
+    with (Some (s "module" ++ s "/" ++ idf (e_id m) ++ s ".html")).
+  destruct (e_kind e); simpl in P; try discriminate; eexists; reflexivity.
+Qed.
+
+(* B says `use m, only: e` (m a module of A, e accessible in m): the module B finds is A's m and
+   the entity it imports carries the URL  base / (A's own URL of e) *)
+Theorem roundtrip A b v locals m e w :
+  wf_A A -> base_ok b ->
+  In m (a_modules A) -> In e (e_kids m) -> accessible e = true -> pub_class (e_kind e) = Some w ->
+  lower_in (e_name m) locals = false ->
+  no_slash (ident_of A (e_id m)) = true -> no_slash (ident_of A (e_id e)) = true ->
+  exists tops xm x u mu,
+    load_json b (export A v) = Ok tops /\
+    find_used_module locals tops (e_name m) = Ok (Some (HExt xm)) /\
+    module_url (ident_of A) m = Some mu /\ x_url xm = JStr (spec_join b mu) /\
+    used_lookup xm w (e_name e) = Ok (Some x) /\
+    x_name x = JStr (e_name e) /\
+    kid_url (ident_of A) m e = Some u /\ x_url x = JStr (spec_join b u).
+Proof.
+  intros W Hb Hm He Ha Hp Hl Nm Ne.
+  pose proof (wf_kinds A W) as WK. rewrite Forall_forall in WK. destruct (WK m Hm) as [Km _].
+  pose proof (wf_names A W) as WN. rewrite Forall_forall in WN. specialize (WN m Hm).
+  destruct (kid_url_some (ident_of A) m e w Km Hp) as (u & Hu).
+  exists (xmods A b), (xlate (ident_of A) (a_cfg A) b None None true m).
+  destruct m as [id k name p kids]. simpl in Km, He. subst k.
+  exists (xlate (ident_of A) (a_cfg A) b (Some KModule) (own_url None None KModule (ident_of A id))
+                (shown (c_display (a_cfg A)) e) e), u,
+         (s "module" ++ s "/" ++ ident_of A id ++ s ".html").
+  split; [apply load_json_export|].
+  split; [now apply use_module_roundtrip|].
+  split; [reflexivity|].
+  split.
+  { rewrite x_url_xlate. simpl e_kind. simpl e_id. f_equal.
+    apply (rebase_module_url (ident_of A) b (Ent id KModule name p kids)); auto. }
+  split; [now apply used_lookup_roundtrip|].
+  split; [apply x_name_xlate|].
+  split; [exact Hu|].
+  rewrite x_url_xlate. f_equal.
+  unfold kid_url in Hu. simpl e_kind in Hu. simpl e_id in Hu. rewrite Hu. simpl url_rel.
+  apply (rebase_kid_url (ident_of A) b (Ent id KModule name p kids) e); auto.
+Qed.
+
+(* ================================================================= witnesses *)
+
+Definition cfg_default : acfg := {| c_display := [Public; Protected]; c_internals := false |}.
+
+(* two modules of A with a public procedure `init` each, and a private one *)
+Definition A_ex : aproject :=
+  {| a_modules :=
+       [Ent 1 KModule (s "ma") Public
+          [Ent 2 KSubroutine (s "init") Public []; Ent 3 KType (s "shape_t") Public
+             [Ent 4 KVar (s "side") Public []; Ent 5 KBound (s "draw") Public []];
+           Ent 6 KVar (s "count") Protected []; Ent 7 KFunction (s "hid") Private []];
+        Ent 8 KModule (s "mb") Private
+          [Ent 9 KSubroutine (s "Init") Public []; Ent 10 KType (s "shape_t") Public []]];
+     a_cfg := cfg_default; a_pre := [] |}.
+
+Lemma wf_A_ex : wf_A A_ex.
+Proof.
+  split.
+  - repeat constructor.
+  - vm_compute. repeat constructor; simpl; intuition discriminate.
+  - repeat constructor; intros w H; unfold PUB_DICTS in H; simpl in H;
+      destruct H as [<-|[<-|[<-|[<-|[]]]]]; vm_compute; repeat constructor; simpl; intuition discriminate.
+Qed.
+
+(* the second `init` lives on proc/init~2.html, and that is where B is sent *)
+Example roundtrip_ex :
+  exists tops xm x,
+    load_json (BRemote (s "https://docs.example.org/a/")) (export A_ex (s "1")) = Ok tops /\
+    find_used_module [s "bm"] tops (s "mb") = Ok (Some (HExt xm)) /\
+    used_lookup xm (s "pub_procs") (s "init") = Ok (Some x) /\
+    x_url x = JStr (s "https://docs.example.org/a/proc/init~2.html").
+Proof. do 3 eexists. vm_compute. repeat split; reflexivity. Qed.
+
+(* a display that also shows private entities: they are exported *)
+Definition A_private_listed : aproject :=
+  {| a_modules := [Ent 1 KModule (s "m") Public
+                     [Ent 2 KSubroutine (s "pub") Public []; Ent 3 KSubroutine (s "hid") Private []]];
+     a_cfg := {| c_display := [Public; Private; Protected]; c_internals := false |}; a_pre := [] |}.
+Lemma export_exact_refuted_private_listed :
+  Forall (fun m => e_kind m = KModule) (a_modules A_private_listed) /\
+  display_default (c_display (a_cfg A_private_listed)) = false /\
+  exact_on (a_modules A_private_listed) (export A_private_listed []) = false.
+Proof. split; [repeat constructor|]. split; vm_compute; reflexivity. Qed.
+
+(* a display without `public`: the exported URL of a public entity names a page A does not write *)
+Definition A_private_only : aproject :=
+  {| a_modules := [Ent 1 KModule (s "m") Public [Ent 2 KSubroutine (s "solve") Public []]];
+     a_cfg := {| c_display := [Private]; c_internals := false |}; a_pre := [] |}.
+Lemma target_written_refuted :
+  exists m e u,
+    In m (a_modules A_private_only) /\ e_kind m = KModule /\ In e (e_kids m) /\ importable e = true /\
+    kid_url (ident_of A_private_only) m e = Some u /\ ~ In (page_of u) (pages_written A_private_only).
+Proof.
+  exists (Ent 1 KModule (s "m") Public [Ent 2 KSubroutine (s "solve") Public []]),
+         (Ent 2 KSubroutine (s "solve") Public []), (s "proc/solve.html").
+  repeat split; try (vm_compute; tauto).
+  vm_compute. intros [H|[]]. discriminate H.
+Qed.
+Lemma export_exact_refuted_public_unlisted :
+  exact_on (a_modules A_private_only) (export A_private_only []) = false.
+Proof. vm_compute. reflexivity. Qed.
+
+(* [[shape]]: B has a type `shape`, A a module `shape` *)
+Definition B_shape : blocal := [(CTypes, [s "shape"])].
+Definition tops_shape : list xval :=
+  [XO XModule (JStr (s "shape")) (JStr (s "/a/doc/module/shape.html")) (canon_attrs XModule [])].
+Lemma local_first_find_refuted :
+  defined_locally B_shape (s "shape") = true /\
+  project_find B_shape tops_shape (s "shape") None None = Ok (Some (HExt (hd (XS []) tops_shape))).
+Proof. split; vm_compute; reflexivity. Qed.
+
+(* load errors that end the run *)
+Lemma load_missing_raises d : load (SLocal d LMissing) = ORaised FileNotFoundError.
+Proof. reflexivity. Qed.
+Lemma load_absolute_raises p : load (SLocalAbs p) = ORaised TypeError.
+Proof. reflexivity. Qed.
+Lemma load_undecodable_raises d : load (SLocal d LUndecodable) = ORaised UnicodeDecodeError.
+Proof. reflexivity. Qed.
+Lemma load_shape_raises d :
+  load (SLocal d (LJson (JDict [(METADATA_NAME, JDict [])]))) = ORaised KeyError /\
+  load (SLocal d (LJson (JList [JDict [(s "name", JStr (s "m"))]]))) = ORaised KeyError /\
+  load (SLocal d (LJson (JNum 3))) = ORaised TypeError /\
+  load (SLocal d (LJson (JList [JDict [(s "name", JStr (s "m")); (s "external_url", JNum 1);
+                                        (s "obj", JStr (s "module"))]]))) = ORaised AttributeError.
+Proof. repeat split; reflexivity. Qed.
